@@ -1,4 +1,5 @@
 import Proofs.Shape
+import Proofs.ShapeGen
 /-!
 # C04 — shape features equal their documented definitions
 
@@ -44,6 +45,16 @@ theorem C04_band_amp_window (x amp : List Rat) (r : SampleRow) (h : r.inside x.l
       .fin (sumRat ((List.range (r.nextTrough - r.lastTrough).toNat).map fun j => amp.getD (r.lastTrough.toNat + j) 0)
             / ((r.nextTrough - r.lastTrough).toNat : Rat)) :=
   bandAmp_window x amp r h hamp
+
+/-- TIE TO THE SOURCE: the column arithmetic translated from bycycle/features/shape.py on this run
+(`Generated/SlotsShapeExpr.lean`, evaluated by `shapeFeaturesGen`, which is what the driver runs against the
+implementation) produces exactly the table of the hand-written transcription the theorems above speak about. -/
+theorem C04_generated (c : Centre) (sig amp : List Rat) (rows : List SampleRow) (l : List ShapeRow)
+    (h : shapeFeatures c sig amp rows = .ok l) : shapeFeaturesGen c sig amp rows = .ok l :=
+  shapeFeaturesGen_eq c sig amp rows l h
+
+theorem C04_generated_row (sig : List Rat) (r : SampleRow) (s : ShapeRow) (h : shapeOfRow sig r = .ok s) :
+    shapeOfRowGen sig r = .ok s := shapeOfRowGen_eq sig r s h
 
 /-! non-vacuity: a concrete tiling table inside a concrete signal -/
 example : (∀ r ∈ ([⟨3, 0, 4, 2, 1, 5⟩, ⟨7, 4, 8, 6, 5, 9⟩] : List SampleRow), r.inside 10) ∧
